@@ -11,7 +11,9 @@ Sub-check "sim"   one case = (simulator, product, simulation mode, maximum step,
     simulators    LevyProcess on HEM / Merton / exp-HEM (real jump_increment, spied), MarkovChainProcess (HEM; CGMY y=1.2
                   whose diffusion coefficient carries the small-jump adjustment), MarkovChainLevyCopula (HEM x Merton,
                   Clayton, d=2), CouplingMarkovChain at level 1 and 2 (HEM; CGMY 1.2: fine and coarse coefficients differ),
-                  CouplingProcessLevyCopula at level 1 and 2.  State sampler: INVERSION.
+                  CouplingProcessLevyCopula at level 1 and 2.  State sampler: INVERSION, and on HEM also BINARYSEARCHTREE,
+                  ALIAS (chain and coupling), TABLE, HUFFMANNTREE, BINARYSEARCHTREEADAPTED1D (coupling) and
+                  BINARYSEARCHTREEADAPTED (copula chain and copula coupling).
     products      Spot (T=1, T=0.5) and Asian YEARLY with T=1,2,3 / MONTHLY with T=2/12, 3/12: the two producers of time
                   grids in rpylib.product.underlying -> 1, 2, 3 intervals; identity payoff with payoff_dates_type
                   DETERMINISTIC (fixed dates) or STOCHASTIC (jump times); maximum step eps in {T/4, T/2.5, 2T}.
@@ -34,8 +36,7 @@ Sub-check "finer" the two copies of build_finer_grid (levyprocess.SimulationMaxi
 Outside the alphabet (statement silent): where inside a long gap the extra points are put; presence of the interior product
 dates in jump-time mode (the library returns jump times and the maturity only); which variate feeds which jump inside one
 interval; law of the coupling decision (C03) and of the state sampler (C02); infinite-variation copula models (their
-constructor opens a process pool); sampling methods other than INVERSION; tied jump times are only required to be
-non-decreasing; steps below 1e-9*eps created by the repeated subtraction of eps are counted, not judged.
+constructor opens a process pool); tied jump times are only required to be non-decreasing; steps below 1e-9*eps created by the repeated subtraction of eps are counted, not judged.
 """
 from __future__ import annotations
 
@@ -56,7 +57,7 @@ RULE = (
     "(or finer grid) was compared with the reference assembly from the scripted variates; distinct = distinct case dict"
 )
 ASSUMPTIONS = [
-    "numpy.random.{poisson,random_sample,random,normal,uniform,choice} are replaced by scripted functions while a case runs; "
+    "numpy.random.{poisson,random_sample,random,normal,uniform,choice} and random.getrandbits are replaced by scripted functions while a case runs; "
     "jump sizes are observed by wrapping model.jump_increment / <sampler class>.sample (real code runs underneath)",
     "draw protocol assumed: jump counts are drawn interval by interval (fixed dates: interval-major over the batch, checked "
     "through the Poisson rate when interval lengths differ); the k-th producer call of a path feeds interval k",
@@ -106,7 +107,7 @@ def cases(tier):
         prods = ["spot-1", "spot-05", "asian-y1", "asian-y2", "asian-m2", "asian-y3", "asian-m3"]
     else:
         sims = ["levy-hem", "levy-merton", "chain-hem", "chain-cgmy12", "copula-chain", "coupling-hem", "coupling-cgmy12",
-                "coupling-copula"]
+                "coupling-copula", "chain-hem-bst", "coupling-hem-bst", "coupling-hem-alias", "coupling-copula-bsta"]
         prods = ["spot-1", "asian-y2", "asian-m3"]
     for prod in prods:
         n = _n_intervals(prod)
